@@ -220,6 +220,18 @@ CHECKS["C02"] = dict(
    note=TB + "Integers below 2^31 and floats with short exact expansions (64-bit values and float accuracy are C18's subject); a missing optional integer is represented by the library as 0.",
    technique="TLA+ executable format semantics; TLC-enumerated files replayed into the readers; TLC trace validation of random grammar files",
    design="6/C02")
+CHECKS["C03"] = dict(
+   text="spec/Writer.tla: a writer receives the rows of a table in successive, possibly empty, pieces, may be closed and re-opened in "
+        "append mode (actions Write(k), Close, Reopen); invariant Canonical: target = header (once, if any) followed by "
+        "Formats.tla!Serialise of the rows written so far (tab-separated columns by kind, VCF POS 1-based, no trailing tab for an absent "
+        "SAM tag column, FASTA wrapped at the line width incl. lengths 79/80/81/160/161, FASTQ layout with Phred+33); action properties "
+        "OnlyGrows and HeaderOnce. TLC enumerates every table of <=N sample records of 12 formats x every call history up to MaxCalls and "
+        "prints the bytes; each behaviour is executed on a plain target, a gzip target and as one stream of chunks, the bytes compared and "
+        "the file read back and compared with the specification's values.",
+   note=TB + "Tables are built in memory from the specification's values; sample records, not generated field contents (64-bit integers and float text are C18's subject). "
+        "BAM writing is covered by C16.",
+   technique="TLA+ writer state machine model-checked by TLC; every completed behaviour (table x call history) replayed into bnp.open(...).write on plain/gzip/stream targets and read back",
+   design="6/C03")
 PENDING = {}
 def main():
     props = [json.loads(l)["id"] for l in open(os.path.join(HERE, "properties.jsonl"))]
